@@ -24,6 +24,9 @@ static CTX_DROPS: [std::sync::atomic::AtomicUsize; 8] = {
 impl Drop for CtxP {
     fn drop(&mut self) {
         objfam::emit("ctx_released", self.id);
+        if IN_CALLEE.load(std::sync::atomic::Ordering::SeqCst) {
+            CTX_RELEASED_IN_CALLEE.fetch_add(1, std::sync::atomic::Ordering::SeqCst);
+        }
         CTX_DROPS[self.id].fetch_add(1, std::sync::atomic::Ordering::SeqCst);
         payload::CTX_RELEASES.fetch_add(1, std::sync::atomic::Ordering::SeqCst);
     }
@@ -244,10 +247,17 @@ impl<T: Ob + 'static> Caps for HOb<T> {
 type ObCont = cglue::trait_group::CGlueObjContainer<BoxI, CArc<c_void>, ObRetTmp<CArc<c_void>>>;
 pub struct HObArc(pub ObBase<'static, BoxI, CArc<c_void>>);
 static ORIG_TAKE: std::sync::atomic::AtomicUsize = std::sync::atomic::AtomicUsize::new(0);
+/// set while control is inside an interposed by-value vtable slot (the callee's module is executing)
+static IN_CALLEE: std::sync::atomic::AtomicBool = std::sync::atomic::AtomicBool::new(false);
+/// context destructors that ran while control was inside the callee ("during a by-value call the context is not released
+/// before control has returned to the caller") - observed in this module whichever module the callee lives in
+static CTX_RELEASED_IN_CALLEE: std::sync::atomic::AtomicUsize = std::sync::atomic::AtomicUsize::new(0);
 unsafe extern "C" fn take_tramp(cont: ObCont) -> i64 {
     objfam::emit("callee_enter", 0);
     let f: unsafe extern "C" fn(ObCont) -> i64 = std::mem::transmute(ORIG_TAKE.load(std::sync::atomic::Ordering::SeqCst));
+    IN_CALLEE.store(true, std::sync::atomic::Ordering::SeqCst);
     let r = f(cont);
+    IN_CALLEE.store(false, std::sync::atomic::Ordering::SeqCst);
     objfam::emit("callee_exit", 0);
     r
 }
@@ -913,7 +923,13 @@ impl World {
                 let m = e["m"].as_str().unwrap();
                 let Slot { meta, obj } = self.slots[x].take().unwrap();
                 if m == "ob_take" {
-                    let r = ledger::track(|| obj.take()).unwrap_or_else(|_| panic!("ob_take not available"));
+                    // where the object's type allows it, through an interposed vtable slot: the window in which control
+                    // is inside the callee is then known, and a context destructor running inside it is counted
+                    let r = ledger::track(|| match obj.take_fine() {
+                        Ok(r) => Ok(r),
+                        Err(o) => o.take(),
+                    })
+                    .unwrap_or_else(|_| panic!("ob_take not available"));
                     self.last = ret(r);
                 } else if m == "ob_try_err" {
                     let r = ledger::track(|| obj.try_child(true)).unwrap_or_else(|_| panic!("ob_try not available"));
@@ -1065,6 +1081,9 @@ impl World {
         // contexts of this module only: a plugin's payload destructors count in the plugin.)
         if payload::LATE_PAYLOAD_DROPS.swap(0, std::sync::atomic::Ordering::SeqCst) > 0 {
             return ("bad:ctx", "a payload's destructor ran after the context of the same object had been released (the last holder let the context go before its instance)".into());
+        }
+        if CTX_RELEASED_IN_CALLEE.swap(0, std::sync::atomic::Ordering::SeqCst) > 0 {
+            return ("bad:ctx", "the context was released while a by-value call was still executing in the callee (no guard clone alive across the call)".into());
         }
         if known { ("known:F2", String::new()) } else { ("ok", String::new()) }
     }
